@@ -3,7 +3,7 @@ use crate::packet::load_cases;
 use crate::util::*;
 use serde_json::{json, Value};
 use simple_dns::rdata::RData;
-use simple_dns::{CharacterString, Name, Packet, ResourceRecord};
+use simple_dns::{CharacterString, Name, Packet, ResourceRecord, CLASS, QCLASS, QTYPE, TYPE};
 use std::collections::hash_map::DefaultHasher;
 use std::convert::TryFrom;
 use std::hash::{Hash, Hasher};
@@ -129,6 +129,13 @@ fn obs_rr(obs: &mut Vec<Value>, part: &str, rr: &ResourceRecord, p: &Packet) {
     for q in &p.questions {
         obs.push(json!(["rr.match_qtype", part, [], total(|| rr.match_qtype(q.qtype))]));
         obs.push(json!(["rr.match_qclass", part, [], total(|| rr.match_qclass(q.qclass))]));
+    }
+    // ... and against every special QTYPE / QCLASS and a few ordinary ones, whatever the packet itself asks
+    for qt in [QTYPE::IXFR, QTYPE::AXFR, QTYPE::MAILB, QTYPE::MAILA, QTYPE::ANY, QTYPE::TYPE(TYPE::A), QTYPE::TYPE(TYPE::TXT), QTYPE::TYPE(TYPE::Unknown(65535)), QTYPE::TYPE(rr.rdata.type_code())] {
+        obs.push(json!(["rr.match_qtype*", part, [], total(|| rr.match_qtype(qt))]));
+    }
+    for qc in [QCLASS::ANY, QCLASS::CLASS(CLASS::IN), QCLASS::CLASS(CLASS::CH), QCLASS::CLASS(CLASS::NONE)] {
+        obs.push(json!(["rr.match_qclass*", part, [], total(|| rr.match_qclass(qc))]));
     }
     obs_name(obs, part, &rr.name);
     obs_rdata(obs, part, &rr.rdata);
